@@ -173,6 +173,43 @@ def runSeq (cfg : Cfg) (p : Persist) : DetState → List (Graph × List Nat) →
     let r := checkS cfg p st g nodes
     r.2 :: runSeq cfg p r.1 rest
 
+/-! ### dependency edges have kinds
+
+`target.dependencies` records how each dependency was declared.  `Dependencies()` returns all resolved dependencies;
+`BuildDependencies()` leaves out those declared only as a source, as data, as a run-time or as an internal
+dependency.  Which accessor `visit` iterates is read from the source. -/
+
+inductive Kind where
+  | dep        -- `deps` / tools: a build-time dependency
+  | source     -- a label in `srcs` only
+  | data       -- `data`
+  | runtime    -- a run-time dependency
+  | internal   -- an internal dependency
+deriving DecidableEq, Repr
+
+/-- resolved dependencies with their kind, in `Dependencies()` order -/
+abbrev KGraph := Nat → List (Nat × Kind)
+
+/-- `target.Dependencies()` -/
+def allDeps (kg : KGraph) : Graph := fun t => (kg t).map (·.1)
+
+/-- `target.BuildDependencies()`: `!deps.runtime && !deps.data && !deps.internal && !deps.source` -/
+def buildDeps (kg : KGraph) : Graph := fun t => ((kg t).filter (·.2 == Kind.dep)).map (·.1)
+
+/-- which accessor the `for _, dep := range target.…()` loop of `visit` calls -/
+inductive Accessor where
+  | all     -- `Dependencies()`
+  | build   -- `BuildDependencies()`
+deriving DecidableEq, Repr
+
+def depsOf (acc : Accessor) (kg : KGraph) : Graph :=
+  match acc with
+  | .all => allDeps kg
+  | .build => buildDeps kg
+
+/-- `Check()` on a graph whose edges have kinds -/
+def kcheck (cfg : Cfg) (acc : Accessor) (kg : KGraph) (nodes : List Nat) : Res := check cfg (depsOf acc kg) nodes
+
 /-- Well-formed graph: dependencies of listed targets are listed (the graph holds every resolved dependency). -/
 def WF (g : Graph) (nodes : List Nat) : Prop := ∀ t ∈ nodes, ∀ d ∈ g t, d ∈ nodes
 
